@@ -67,7 +67,11 @@ Oracles (independent of the Coq model and of the code under test; all walk point
     ``sibling_oracle(tree)``  C03: no two children of one parent with equal data_id
     ``refusal_oracle(step)``  C13: after a library refusal the observable state is unchanged
     ``effect_oracle(step)``   C04: documented effect + frame condition (see `Spec` below)
-Generators: ``gen_exhaustive(nmax, ...)`` (every single op with every argument on every forest <= nmax
+``run_group(group, oracles)`` replays one exhaustive group (setup + every alternative) and returns
+``(coq term CAlts, observation, [Run])``; ``first(iterable)``; ``World`` (rel/raw/live_node/obs...) is the
+implementation side of a running history (use ``replay(..., keep_world=True).world`` to probe the live trees
+after a history, e.g. for C02 lookups or C07 independence checks); ``execute(world, op)`` runs one op.
+Generators: ``gen_shapes(shapes, ...)`` (explicit deeper shapes, EXTRA_SHAPES), ``gen_exhaustive(nmax, ...)`` (every single op with every argument on every forest <= nmax
 nodes, as (setup, alternatives) groups), ``gen_random(rng, n_ops, ...)`` (mostly-valid histories),
 ``gen_malformed(rng, n_ops)`` (invalid `before`, colliding ids, foreign targets, moves into the own
 branch; removed nodes are never referenced).  ``shrink_candidates(hist)``: drop ops, drop setup nodes.
@@ -939,7 +943,7 @@ class Gen:
             if sti == ti and not self.malformed:
                 return
             p = self.any_node(ti)
-            return self.do(["addtree", ti, p, sti, rng.choice([None, None, True, False, 0]), rng.choice([None, True, False])])
+            return self.do(["addtree", ti, p, sti, self.before_arg(ti, p), rng.choice([None, True, False])])
         if k == "copyto":
             sti = self.pick_tree()
             src = self.any_node(sti, root=True)
@@ -1013,7 +1017,7 @@ class Gen:
         if k == "meta":
             if not ids:
                 return
-            mo = rng.choice([["set", "k", 1], ["set", "k", None], ["set", "j", "v"], ["clear", None], ["clear", "k"],
+            mo = rng.choice([["set", "k", 1], ["set", "k", None], ["set", "j", "v"], ["clear", None], ["clear", "k"], ["set", "", 2], ["clear", ""],
                              ["update", {"z": 1, "k": 2}, False], ["update", {"z": 3}, True], ["update", {}, True]])
             return self.do(["meta", ti, rng.choice(ids), mo])
         if k == "filter":
@@ -1211,9 +1215,28 @@ def gen_shapes(shapes, *, labelings=("distinct", "equal"), typed=(False,), famil
             mk_univ, labeler = LABELINGS[lname]
             for ty in typed:
                 univ = mk_univ(n)
-                nodes = B.shape_to_nodes(shape, (lambda i, d, s: (labeler(i, d, s)[0], "k1" if ty else None, labeler(i, d, s)[2])))
+                nodes = B.shape_to_nodes(shape, (lambda i, d, s: (labeler(i, d, s)[0], ("k1", "k2")[s % 2] if ty else None, labeler(i, d, s)[2])))
                 setup = [["new", ty, None]] + setup_ops(nodes, 0, ty)
                 yield dict(univ=univ, setup=setup, alts=single_ops(nodes, univ, ty, families), label=lname + "/extra", n=n)
+
+
+def gen_addtree(typed=(False,)):
+    """Two-tree worlds: every add(tree)/copy_to(tree) argument combination."""
+    for ty in typed:
+        univ = ["s:a", "s:b", "s:c", "s:x", "s:y", "s:z"]
+        k = "k1" if ty else None
+        setup = [["new", ty, None], ["new", ty, None],
+                 ["add", 0, 0, 0, None, k, None], ["add", 0, 1, 5, None, k, None], ["add", 0, 0, 1, None, k, None], ["add", 0, 0, 2, None, k, None],
+                 ["add", 1, 0, 3, None, k, None], ["add", 1, 0, 4, None, k, None], ["add", 1, 5, 5, None, k, None]]
+        alts = []
+        for p, ch in ((0, [5, 6]), (5, [7]), (6, [])):
+            for b in before_choices(len(ch), ch, [1]):
+                for deep in (None, False):
+                    alts.append(["addtree", 1, p, 0, b, deep])
+            alts.append(["copyto", 0, 0, 1, p, False, None, True])
+        alts.append(["addtree", 0, 0, 1, None, None])
+        alts.append(["addtree", 1, 7, 1, None, None])
+        yield dict(univ=univ, setup=setup, alts=alts, label="addtree" + ("/typed" if ty else ""), n=7)
 
 
 def gen_exhaustive(nmax, *, labelings=("distinct", "equal", "clones"), typed=(False,), families=None, nmin=0):
@@ -1225,7 +1248,7 @@ def gen_exhaustive(nmax, *, labelings=("distinct", "equal", "clones"), typed=(Fa
                 mk_univ, labeler = LABELINGS[lname]
                 for ty in typed:
                     univ = mk_univ(n)
-                    nodes = B.shape_to_nodes(shape, (lambda i, d, s: (labeler(i, d, s)[0], "k1" if ty else None, labeler(i, d, s)[2])))
+                    nodes = B.shape_to_nodes(shape, (lambda i, d, s: (labeler(i, d, s)[0], ("k1", "k2")[s % 2] if ty else None, labeler(i, d, s)[2])))
                     setup = [["new", ty, None]] + setup_ops(nodes, 0, ty)
                     if lname == "clones":
                         # a labeling that collides under one parent is not a constructible tree
@@ -1317,6 +1340,9 @@ def renumber(op, dropped):
 # Minimal witnesses of repaired defects (each fails an oracle on the unchanged code)
 # ---------------------------------------------------------------------------
 CORPUS: list = [
+ {"id": "D03b", "univ": ["s:a", "s:b", "s:c"], "ops": [["new", False, None], ["add", 0, 0, 0, None, None, None], ["add", 0, 1, 1, None, None, None], ["add", 0, 2, 0, None, None, None], ["add", 0, 0, 2, None, None, None], ["add", 0, 4, 0, None, None, None], ["remove", 0, 5, False, True]]},
+ {"id": "R-meta", "univ": ["s:a"], "ops": [["new", False, None], ["add", 0, 0, 0, None, None, None], ["meta", 0, 1, ["set", "k", 1]], ["meta", 0, 1, ["set", "", 2]], ["meta", 0, 1, ["clear", ""]], ["meta", 0, 1, ["update", {}, True]], ["meta", 0, 1, ["update", {"z": 1}, False]], ["meta", 0, 1, ["set", "z", None]]]},
+ {"id": "D70", "univ": ["s:a", "s:b", "s:x", "s:y"], "ops": [["new", False, None], ["new", False, None], ["add", 0, 0, 0, None, None, None], ["add", 0, 0, 1, None, None, None], ["add", 1, 0, 2, None, None, None], ["add", 1, 0, 3, None, None, None], ["addtree", 1, 0, 0, {"n": 4}, None]]},
  {"id": "D48", "univ": ["s:a", "s:b"], "ops": [["new", False, None], ["add", 0, 0, 0, None, None, None], ["from_dict", 0, 1, [[1, None, []], [1, None, []]]]]},
  {
   "id": "D01",
